@@ -315,7 +315,7 @@ def gen_C19(rng, tier):
     out = []
     pts = curve_pts(rng, tier)
     for P in pts:
-        for s in rng.sample(scalars(rng, tier), 4):
+        for s in rng.sample(scalars(rng, tier), 4) + [0, 1]:
             out.append(('mulrecv %d %d %d' % ((s,) + P), 'Point.Mul/fresh-receiver'))
             out.append(('mulalias %d %d %d' % ((s,) + P), 'Point.Mul/receiver=argument'))
         out.append(('pset %d %d' % P, 'Point.Set'))
